@@ -73,7 +73,7 @@ func c16Schema() *tspace.Schema {
 	str, in := tspace.Base{Type: "string"}, tspace.Base{Type: "integer"}
 	sv := str
 	mk := func(name string) *tspace.Table {
-		return &tspace.Table{Name: name, IsRoot: true, Cols: []*tspace.Col{
+		return &tspace.Table{Name: name, IsRoot: true, Indexes: [][]string{{"name"}}, Cols: []*tspace.Col{
 			{Name: "name", Key: str, Min: 1, Max: 1},
 			{Name: "n", Key: in, Min: 1, Max: 1},
 			{Name: "tags", Key: str, Val: &sv, Min: 0, Max: -1},
@@ -497,6 +497,31 @@ func c16Session(r *ev.Run, m *dyn.Model, shape c16shape, f c16fault, batch, idx 
 	}
 	if d != "" {
 		res.findings = append(res.findings, finding{fmt.Sprintf("C16/cache-not-resynchronised/monitors=%d/%s", shape.nMon, cacheDiffClass(d)), "after reconnecting the cache does not converge to the database: " + d})
+	} else if tc := cl.Cache(); tc != nil {
+		// the rows agree: so must the look-ups through the index on name (a row deleted
+		// while the client was away must not survive there either)
+		for tn := range monitored {
+			rc := tc.Table(tn)
+			if rc == nil {
+				continue
+			}
+			idx, ierr := rc.Index("name")
+			if ierr != nil {
+				continue
+			}
+			n := 0
+			for _, us := range idx {
+				for _, u := range us {
+					n++
+					if _, ok := post.T[tn][u]; !ok {
+						res.findings = append(res.findings, finding{fmt.Sprintf("C16/cache-not-resynchronised/monitors=%d/index-entry-for-a-row-that-is-gone", shape.nMon), fmt.Sprintf("table %s: the index on name still lists row %s, which neither the database nor the cached rows hold", tn, u)})
+					}
+				}
+			}
+			if n != len(post.T[tn]) {
+				res.findings = append(res.findings, finding{fmt.Sprintf("C16/cache-not-resynchronised/monitors=%d/index-size-differs", shape.nMon), fmt.Sprintf("table %s: the index on name lists %d rows, the table holds %d", tn, n, len(post.T[tn]))})
+			}
+		}
 	}
 	// markers
 	final, _ := m.Snapshot(srv.DB)
